@@ -21,7 +21,7 @@ for p in props:
                 "evidence_file": "/verif/evidence/%s.json" % pid,
                 "replay_cmd_template": "./check %s --replay {path}" % pid,
                 "engine": "cxsa",
-                "level_claimed": {"category": getattr(m, "LEVEL", "other"), "text": getattr(m, "MANIFEST_TEXT", m.__doc__.strip().split("\n\n")[0]), "design_ref": getattr(m, "DESIGN_REF", "DESIGN.md §5 " + pid)},
+                "level_claimed": {"category": getattr(m, "LEVEL", "other"), "text": getattr(m, "MANIFEST_TEXT", "Static decision, for every input, history and listed build configuration, of the structural necessary conditions of \"%s\" (the clauses are enumerated in the evidence file); not a proof of the input/output behaviour itself." % m.__doc__.strip().split("\n\n")[0].split("\n")[0].rstrip(".")), "design_ref": getattr(m, "DESIGN_REF", "DESIGN.md §5 " + pid)},
                 "level_note": getattr(m, "MANIFEST_NOTE", "Decides the structural clauses listed in the evidence file (coverage.explanation) on the MIR of /repo's current tree; the numerical behaviour listed under coverage.not_decided is not decided. Trusted: rustc front end and MIR construction, the cxfacts dump, the rule implementations in /verif/cxsa."),
                 "technique": getattr(m, "TECHNIQUE", "static analysis over rustc MIR facts"),
             })
